@@ -423,15 +423,19 @@ func main() {
 	var wc wdCounters
 	runWithdraw(r, f, &wc, classes, samples)
 
+	var kc cbCounters
+	runCoinbaseContext(r, f, &kc, classes, samples)
+
 	f.close()
 	cleanup()
 
-	evals := cc.evals + rc.evals + ac.evals + bc.evals + wc.evals
-	nontrivial := wc.accepted + wc.panics + cc.stdTrue + cc.schTrue + cc.msTrue + cc.panicsReach + rc.accepted + rc.panics + ac.accepted + ac.panics + bc.accepted + bc.panics
+	evals := cc.evals + rc.evals + ac.evals + bc.evals + wc.evals + kc.evals
+	nontrivial := kc.accepted + kc.panics + wc.accepted + wc.panics + cc.stdTrue + cc.schTrue + cc.msTrue + cc.panicsReach + rc.accepted + rc.panics + ac.accepted + ac.panics + bc.accepted + bc.panics
 	r.Assume = append(r.Assume,
 		"RunPrograms precondition = what DefaultChecker.CheckAttributeProgram guarantees (code >= 23 bytes, non-nil parameter, Schnorr code only from NormalSchnorrStartHeight); each panic is re-validated through BlockChain.CheckTransactionSanity at mainnet height 2300000 before it is reported",
 		"classifier panics on code shorter than 23 bytes are counted (classifier_panics_unreachable) but not alarmed: no call site hands such code to the classifiers",
-		"per-transaction-type SanityCheck/SpecialContextCheck on the light-node fixture (other than WithdrawFromSideChain v2) and checkCoinbaseTransactionContext are not driven by this check (CheckBlockSanity covers coinbase sanity only)",
+		"per-transaction-type SanityCheck/SpecialContextCheck on the light-node fixture (other than WithdrawFromSideChain v2) are not driven by this check",
+		"checkCoinbaseTransactionContext is driven with an empty arbiter round-reward table and zero final round change (the H2 rule therefore expects exactly two outputs); panics on coinbases that CheckTransactionSanity rejects (fewer than two outputs) are counted (coinbasectx_panics_unreachable) and not alarmed",
 		"WithdrawFromSideChain v2 signer indexes: panics at mainnet heights below CrossChainUTXORestrictionHeight are counted (withdraw_panics_historic_only) but not alarmed — only historic blocks are validated there; under the TestNet()/RegNet() parameter sets the restriction height is disabled, so the same path is live and is alarmed",
 		"the block fixture uses mainnet parameters with a regnet proof-of-work limit so that headers can be solved")
 	r.Finish(evid.Coverage{
@@ -442,6 +446,7 @@ func main() {
 			"RunPrograms: 7 address prefixes x code kinds (valid/invalid standard, schnorr, multisig, cross-chain, all truncations >=23 bytes, garbage) x hash match/mismatch x parameter length 0..130 x {zero, valid-signature prefix} contents; " +
 			"AuxPow.Check after a wire round trip: parent coinbase TxIn 0..2 x aux branch 0..40 x size field menu x script tail lengths x marker nibble offsets x aux index menu x nonce menu x parent merkle index menu; " +
 			"WithdrawFromSideChain v2 SpecialContextCheck after a wire round trip: signer lists {0,1,n-1,n,255}^<=3 and (quorum-3 valid indexes)+{0,1,n-1,n,255}^3 x {mainnet current, mainnet below restriction height, TestNet parameters}; " +
+			"checkCoinbaseTransactionContext (hook VerifCheckCoinbaseContext) after a wire round trip of the coinbase: 4 reward regimes {pre-DPoS, H2 with v2 not activated, H2 at the activation boundary, DPoSv2 active} x consensus {DPOS, POW} x fee totals {0,1,10000,123456789} x 3 exactly-correct base coinbases (v2 / H2 / pre-DPoS rule, plus a 4th extra output) x every ordered subset (0..4 outputs) x {exact, each present value +-1, address swaps, value swap}; a panic counts only if CheckTransactionSanity accepts the coinbase; " +
 			"CheckBlockSanity after a wire round trip: 3 height regimes x coinbase {version, outputs 0..4, values, inputs, programs, content, attribute} full product + one deviating second transaction + structural shapes. " +
 			"non-trivial = classifier-true + accepted + panicking inputs",
 		"exhaustive":                      true,
@@ -462,6 +467,11 @@ func main() {
 		"auxpow_accepted":                 ac.accepted,
 		"auxpow_rejected":                 ac.rejected,
 		"auxpow_panics":                   ac.panics,
+		"coinbasectx_checks":              kc.evals,
+		"coinbasectx_accepted":            kc.accepted,
+		"coinbasectx_rejected":            kc.rejected,
+		"coinbasectx_panics":              kc.panics,
+		"coinbasectx_panics_unreachable":  kc.panicsUnreachable,
 		"withdraw_checks":                 wc.evals,
 		"withdraw_accepted":               wc.accepted,
 		"withdraw_rejected":               wc.rejected,
@@ -521,6 +531,11 @@ func replay(r *evid.Run, f *fixture) {
 		raw, _ := hex.DecodeString(a["block"].(string))
 		var bc blkCounters
 		f.evalBlockBytes(r, fmt.Sprint(a["desc"]), raw, &bc, classes, samples)
+	case "coinbasectx":
+		fmt.Println("coinbase-context artefacts are re-derived by the enumeration: running seam 6 only")
+		installArbiters(f)
+		var kc cbCounters
+		runCoinbaseContext(r, f, &kc, classes, samples)
 	case "withdraw":
 		fmt.Println("withdraw artefacts are re-derived by the enumeration: running seam 5 only")
 		var wc wdCounters
